@@ -547,3 +547,82 @@ def check_accessor_slots(run, rule='R8'):
                 run.error('%s: %s reads no constant slot of the value matrix (expected [%s])' % (rule, key, want))
                 continue
         run.holds(rule, key, 'slot of the ' + what, 'every read of the value matrix takes [%s]' % want, f=f)
+
+
+# ---------------------------------------------------------------------------------------------------------------- zip lengths
+def check_zip_lengths(run, funcs, rule='R8z'):
+    """`zip(a, b)` stops at the shorter sequence.  Where the two sequences come from two different operands of a method (the
+    receiver's values and an argument's columns / values), pairing them is the M-with-M case of the broadcasting rule and needs a
+    length-equality test of exactly these two operands on every path to it -- otherwise operands of two different lengths give a
+    (truncated) result instead of ValueError."""
+    from ..astutil import single_assignments
+    n = 0
+    for f in funcs:
+        if f.cls is None and f.parent is None:
+            continue
+        zips = [c for c in own_walk(f.node) if isinstance(c, ast.Call) and isinstance(c.func, ast.Name) and c.func.id == 'zip' and len(c.args) >= 2]
+        if not zips:
+            continue
+        params = set(f.allparams)
+        sa = single_assignments(f.node)
+
+        def root(e, depth=0):
+            if depth > 4:
+                return None
+            if isinstance(e, ast.Name):
+                if e.id in params:
+                    return e.id
+                if e.id in sa:
+                    return root(sa[e.id], depth + 1)
+                return None
+            if isinstance(e, (ast.Attribute, ast.Subscript, ast.Starred)):
+                return root(e.value, depth)
+            if isinstance(e, ast.Call):
+                if isinstance(e.func, ast.Attribute):
+                    r = root(e.func.value, depth)
+                    if r is not None:
+                        return r
+                return root(e.args[0], depth) if e.args else None
+            return None
+        cfg = CFG(f.node)
+        facts = must_facts(cfg)
+        owner = {}
+        for node in cfg.nodes:
+            for h in header_expr(node):
+                if h is None:
+                    continue
+                for x in ast.walk(h):
+                    owner.setdefault(id(x), node)
+        for z in zips:
+            roots = [root(a) for a in z.args]
+            distinct = sorted({r for r in roots if r is not None})
+            if len(distinct) < 2:
+                continue
+            node = owner.get(id(z))
+            if node is None:
+                continue
+            n += 1
+            fs = facts.get(node.id, frozenset())
+            ok = False
+            for fc in fs:
+                t = fc[2].ast
+                for cmp_ in [y for y in ast.walk(t) if isinstance(y, ast.Compare) and len(y.ops) == 1]:
+                    eq = isinstance(cmp_.ops[0], ast.Eq) and fc[1] or isinstance(cmp_.ops[0], ast.NotEq) and not fc[1]
+                    if not eq or (isinstance(t, ast.BoolOp) and isinstance(t.op, ast.Or) and fc[1]):
+                        continue
+                    sides = [cmp_.left, cmp_.comparators[0]]
+                    txt = [ast.unparse(s_) for s_ in sides]
+                    if not all('len(' in x or '.shape' in x for x in txt):
+                        continue
+                    names = [{y.id for y in ast.walk(s_) if isinstance(y, ast.Name)} for s_ in sides]
+                    if any(a in names[0] and b in names[1] or a in names[1] and b in names[0]
+                           for a in distinct for b in distinct if a != b):
+                        ok = True
+            construct = 'zip(%s)' % ', '.join(src(a, 20) for a in z.args)
+            if ok:
+                run.holds(rule, f.key, construct, 'paired only where the lengths of %s have been found equal' % ' and '.join(distinct), f=f, node=z)
+            else:
+                run.violation(rule, f.key, construct, 'the values of %s are paired by zip without a test that their lengths are equal on every path to it: '
+                              'zip stops at the shorter one, so operands of two different lengths (both > 1) give a truncated result instead of '
+                              'ValueError' % ' and '.join(distinct), f=f, node=z)
+    return n
